@@ -84,7 +84,7 @@ func init() {
 		OddCerts = append(OddCerts, &Leaf{Name: n, DER: der, PEM: cpem, CADER: CADER, Hosts: []string{"example.com", "fifth.example"}})
 	}
 	cas := map[string]string{"e-p256": "ca-rsa.cert.pem", "f-p384": "ca-ed25519.cert.pem"}
-	for _, n := range []string{"a-p256", "a2-p256", "b-p384", "c-p256", "d-p384", "e-p256", "f-p384"} {
+	for _, n := range []string{"a-p256", "a2-p256", "b-p384", "c-p256", "d-p384", "e-p256", "f-p384", "g-p256"} {
 		der, cpem := mustPEM(n + ".cert.pem")
 		kder, kpem := mustPEM(n + ".key.pem")
 		k, err := x509.ParseECPrivateKey(kder)
@@ -98,6 +98,9 @@ func init() {
 		ca := CADER
 		if f, ok := cas[n]; ok {
 			ca, _ = mustPEM(f)
+		}
+		if n == "g-p256" {
+			ca = der // self-signed; carries the embedded-SCT-list extension
 		}
 		Leaves = append(Leaves, &Leaf{Name: n, DER: der, Key: k, Hosts: c.DNSNames, PEM: cpem, KeyPEM: kpem, CADER: ca})
 	}
